@@ -82,6 +82,13 @@ def search(pid, v, seed, cases=None):
         p = subprocess.run([exe, 'search', ','.join(f for f in fams if f in ('instantiate', 'stake', 'batch', 'rewards')), str(seed or 1), str(cases or CASES), pid],
                            capture_output=True, text=True, timeout=1800)
         w = json.loads((p.stdout.strip().split('\n') or ['null'])[-1])
+        if w is not None and pid not in (w.get('props') or [])[:-1]:
+            # tagged for this property only because it showed up in the miniwasm build ("the two builds behave identically"):
+            # that holds only if the default build does NOT fail on the same case
+            exe0 = build()
+            p0 = subprocess.run([exe0, 'rerun', w['family'], str(w['seed']), str(w['case'])], capture_output=True, text=True)
+            if p0.returncode == 1:
+                w = None
         if w is not None:
             w['build'] = 'miniwasm'
     if w is None:
